@@ -218,6 +218,8 @@ def _augment_tables(P):
                     return a in [value(x, env) for x in b.elts]
             # truthiness of a label component (reported separately by GEN-TRUTH): ε is '' hence falsy
             v = value(test, env)
+            if isinstance(v, bool):
+                return v
             if v in ("σ",):
                 return True
             if v == "ε":
@@ -240,6 +242,8 @@ def _augment_tables(P):
                 return tuple(value(x, env) for x in e.elts)
             if isinstance(e, ast.IfExp):
                 return value(e.body, env) if truth(e.test, env) else value(e.orelse, env)
+            if isinstance(e, (ast.Compare, ast.BoolOp)) or (isinstance(e, ast.UnaryOp) and isinstance(e.op, ast.Not)):
+                return truth(e, env)
             if isinstance(e, ast.Attribute) and norm(e).endswith(".one"):
                 return "one"
             raise AnalysisError(f"{f.qual}: expression `{norm(e)}` not understood")
@@ -536,6 +540,10 @@ def rule_tab_special(P):
         good = [n for n in found if norm(n.iter) == f"{f.params[1]}.states"]
         ok = len(good) == 1 and len(found) == 1
         site = (found[0] if found else f.node)
+        if not found and any(g.outer is f for g in P.funcs.values()):
+            r.undecided(f, f.node, f"{f.name}: the nullary-rule loop is not in the function body (moved into a helper?)",
+                        construct=f"{f.name}: nullary rules at every machine state")
+            continue
         r.add(f, site, ok, "" if ok else f"nullary rules are not placed at every state of the machine (`for s in {f.params[1]}.states` under "
               f"`len(r.body) == 0`): states without incident arcs (e.g. the single state of the acceptor of the empty string) lose "
               f"their null derivations", slots=dict(iterates=[norm(n.iter) for n in found]),
@@ -586,8 +594,19 @@ def rule_label_pair(P):
                         if isinstance(a, ast.For) and any(isinstance(t, ast.Name) and t.id == lab.id for t in ast.walk(a.target)) \
                                 and isinstance(a.iter, ast.Call) and W.call_name(a.iter) == "arcs":
                             ok = True
-                    rd = W.reaching_def(f.node, lab.id, nd)
-                    if rd is not None and rd[1] is not None and isinstance(rd[1], ast.Tuple) and len(rd[1].elts) == 2:
+                    defs = [v for st_, v in W.assignments_to(f.node, lab.id)]
+
+                    def pairish(v):
+                        if isinstance(v, ast.Tuple):
+                            return len(v.elts) == 2
+                        if isinstance(v, ast.IfExp):
+                            return pairish(v.body) and pairish(v.orelse)
+                        if isinstance(v, ast.Name):
+                            return any(isinstance(a, ast.For) and any(isinstance(t, ast.Name) and t.id == v.id for t in ast.walk(a.target))
+                                       and isinstance(a.iter, ast.Call) and W.call_name(a.iter) == "arcs" for a in ancestors(nd)) or v.id == lab.id
+                        return False
+
+                    if defs and all(v is not None and pairish(v) for v in defs):
                         ok = True
                 n += 1
                 r.looked_at(f)
